@@ -9,13 +9,15 @@ _RULE = ("histories of 20-60 (thorough: 20-110) abstract steps over 8 actors (2 
          "unknown id) / withdraw / rate change (incl. removal and zero) / plain transfers / keeper-level create-pause-start-kill of a "
          "module that owns contexts and records callbacks / block ends with 1-12 s; selectors are resolved against the live state; "
          "non-trivial = some batch has one request answered and one expired, or a discount applied to a created request, or a "
-         "successful pause followed by a successful start; distinct = by hash of the history")
+         "successful pause followed by a successful start; stream 'sched': one or two repeated contexts with frequency = timeout + 3..9 driven for "
+         "more than three periods with pause/start pairs placed uniformly over the run (incl. the gap between expiry of batch n and the "
+         "scheduled height of batch n+1), strangers' attempts, rare update/kill; distinct = by hash of the history")
 
 _common = dict(
     driver="service",
     coq_targets=["Service/Check.vo", "Service/Proofs.vo", "Service/ProofsHist.vo", "Service/ProofsEscrow.vo", "Service/ProofsSched.vo", "Service/ProofsBatch.vo", "Service/ProofsLiab.vo", "Service/ProofsTally.vo", "Service/ProofsLive.vo"],
     check_module="Service.Check",
-    streams=[dict(name="main", quick=96, thorough=4000)],
+    streams=[dict(name="main", quick=80, thorough=3600), dict(name="sched", quick=20, thorough=600)],
     coq_shard=12,
     trusted_base=["request-context ids = tx hash || per-block index, request ids = context id || batch || height || index: "
                   "identified with their pre-images (the harness checks the id returned by CallService starts with the tx hash)",
@@ -42,10 +44,11 @@ PROPS["C08"] = dict(_common,
     check_fn="check_case_C08",
     rule=_RULE,
     codes={1: "request-outcome", 2: "rejected-step-changed-state", 3: "oneshot-context", 4: "repeated-schedule",
-           5: "paused-issued-batch", 6: "control-by-non-consumer", 7: "callback-count"},
+           5: "paused-issued-batch", 6: "control-by-non-consumer", 7: "callback-count", 8: "queue-marker-consistency"},
     explain={1: "a request changed status other than active->answered (own provider, in time) or active->expired (at its expiry height), or an id was reused, or a request outlived its expiry",
              2: "a rejected step changed an observable", 3: "a one-shot context survived its batch or issued a second batch",
              4: "a repeated running untouched context did not start batch n+1 exactly `frequency` after batch n",
              5: "a paused context issued a batch", 6: "a control message succeeded for someone who is not the consumer (or a user message on a module-owned context)",
-             7: "callback invocations differ from one per completed batch (err==nil iff threshold met) / one state callback per automatic pause"},
+             7: "callback invocations differ from one per completed batch (err==nil iff threshold met) / one state callback per automatic pause",
+             8: "a queue entry disagrees with the height marker of its context (two entries for one context) or a running batch has no expiry marker"},
 )
